@@ -22,24 +22,24 @@ def run(ctx):
     rl = ctx.rule('R-LOOPCALLER', 'Here() of a callback object that is not a BaseCore returns nullptr on every path (the '
                   'Loop would call the returned core with that object as its caller)', minimum=15)
     for cfg, fb in sorted(fbs.items()):
-        lib_core.check_loop_caller(ctx, fb, rl)
+        ctx.guard(lambda: lib_core.check_loop_caller(ctx, fb, rl))
         seen = 0
         for f in sorted(fb.fn.values(), key=lambda f: f.full):
             if f.n == 'await_ready' and f.qn.startswith('yaclib::detail::') and f.cfg is not None:
                 if f.clsq in ('yaclib::detail::AwaitAwaiterBase', 'yaclib::detail::AwaitSingleAwaiter'):
                     seen += 1
-                    lib_ready.check(ctx, fb, rr, f, 'R-READY %s [%s] :: %s' % (f.qn, cfg, f.cls[:80]))
+                    ctx.guard(lambda: lib_ready.check(ctx, fb, rr, f, 'R-READY %s [%s] :: %s' % (f.qn, cfg, f.cls[:80])))
         if seen < 2:
             ctx.broken('await_ready of the Await awaiters not instantiated in %s' % cfg)
-        lib_coro.check_suspend_result(ctx, fb, rs)
-        lib_coro.check_handoff(ctx, fb, rh)
-        lib_coro.check_counter(ctx, fb, rc)
+        ctx.guard(lambda: lib_coro.check_suspend_result(ctx, fb, rs))
+        ctx.guard(lambda: lib_coro.check_handoff(ctx, fb, rh))
+        ctx.guard(lambda: lib_coro.check_counter(ctx, fb, rc))
         if cfg != 'K20n':
-            lib_coro.check_here_next(ctx, fb, rn)
-        lib_coro.check_destroy(ctx, fb, rd)
-        c05.check_awaiters(ctx, fb, ra)
+            ctx.guard(lambda: lib_coro.check_here_next(ctx, fb, rn))
+        ctx.guard(lambda: lib_coro.check_destroy(ctx, fb, rd))
+        ctx.guard(lambda: c05.check_awaiters(ctx, fb, ra))
         if c05.check_resume_executor(ctx, fb, rre) < 2:
             ctx.broken('PromiseType::Impl not instantiated in %s' % cfg)
-        lib_core.check_publish(ctx, fb, rp)
-        lib_head.check(ctx, fb, cfg, rhd, None)
-        lib_core.check_node_reuse(ctx, fb, rnr)
+        ctx.guard(lambda: lib_core.check_publish(ctx, fb, rp))
+        ctx.guard(lambda: lib_head.check(ctx, fb, cfg, rhd, None))
+        ctx.guard(lambda: lib_core.check_node_reuse(ctx, fb, rnr))
